@@ -153,7 +153,7 @@ def min_classes(tier):
 def oracle(line, impl_line):
     mode, a = parse_case(line)
     o = parse_out(impl_line)
-    if o is None or any(x == [888888] for x in o):
+    if o is None or any(x == [18446744073710440504] for x in o):
         return "implementation crashed or panicked"
     wire, ops = a[2], a[3:]
     if ops and ops[0] == [5, 0] and len(ops) > 2 and ops[1] == [0, 1]:
